@@ -419,6 +419,116 @@ class map_blocks_block_info:
                 yield {"entry": name, "tier": tier, "post": post}
 
 
+@contract("dask_array/_map_blocks.py::map_blocks", spec="block-info-multi", props=["C20"])
+class map_blocks_block_info_multi:
+    """several array inputs of equal or lower rank (aligned to the trailing axes, possibly broadcast), with drop_axis /
+    new_axis: for every invocation and every input the block handed to the function is exactly the region of the
+    source that block_info[i]['array-location'] describes, chunk-location / num-chunks agree with the layout advertised
+    when the call was made (an axis the call concatenates counts as one chunk), and block_info[None] describes the
+    output block in the advertised output layout"""
+    bounded_only = True
+    params = {"case": "const", "xch": "const", "ych": "const"}
+    scope = ("x 4x6 (5 layouts) with y of shape (6,), (4,1), (1,6) or (4,6) (layouts per axis), a 3-D x with a 2-D y; "
+             "drop_axis None / 0 / 1, new_axis 0; block_info consumers")
+
+    def call(fn, case, xch, ych):
+        import numpy as np
+        import dask_array as da
+        kind, drop, new = case
+        if kind == "3d":
+            a = np.arange(48.0).reshape(2, 4, 6)
+            b = np.arange(24.0).reshape(4, 6) * 7
+        else:
+            a = np.arange(24.0).reshape(4, 6)
+            b = {"vec": np.arange(6.0) * 10, "col": np.arange(4.0).reshape(4, 1) * 10, "row": np.arange(6.0).reshape(1, 6) * 10,
+                 "full": np.arange(24.0).reshape(4, 6) * 10}[kind]
+        x = da.from_array(a, chunks=xch) + 0
+        y = da.from_array(b, chunks=ych) + 0
+        adv = [x.chunks, y.chunks]
+        log = []
+
+        tag = repr((case, xch, ych))  # captured, so that functions of different cases never share a token
+
+        def f(xb, yb, block_info=None):
+            log.append(([np.array(xb), np.array(yb)], {k: dict(v) for k, v in block_info.items()}, tag))
+            return np.zeros(block_info[None]["chunk-shape"], dtype="f8")
+
+        kw = {}
+        if drop is not None:
+            kw["drop_axis"] = drop
+        if new is not None:
+            kw["new_axis"] = new
+        out = fn(f, x, y, dtype="f8", meta=np.array((), dtype="f8"), **kw)
+        out_chunks = out.chunks
+        # something above and below for the optimiser to work on
+        res = (out + 1)[..., 1:].compute(scheduler="sync")
+        return [a, b], adv, out_chunks, tuple(out.shape), log, res.shape
+
+    def requires(case, xch, ych):
+        return True
+
+    def ensures(result, case, xch, ych):
+        import numpy as np
+        srcs, adv, out_chunks, out_shape, log, res_shape = result
+        kind, drop, new = case
+        ok = {"function-ran": bool(log), "block-is-the-region-array-location-describes": True,
+              "array-location-is-an-advertised-chunk-or-a-concatenated-axis": True, "chunk-location-and-num-chunks": True,
+              "output-entry-describes-the-advertised-output-layout": True}
+        max_ndim = max(s.ndim for s in srcs)
+        dropped = set() if drop is None else {drop % max_ndim}
+        for blocks, info, _tag in log:
+            for i, (src, chunks) in enumerate(zip(srcs, adv)):
+                bi = info[i]
+                aloc = [(int(p), int(q)) for p, q in bi["array-location"]]
+                blk = blocks[i]
+                if tuple(q - p for p, q in aloc) != blk.shape or not np.array_equal(blk, src[tuple(slice(p, q) for p, q in aloc)]):
+                    ok["block-is-the-region-array-location-describes"] = False
+                off = max_ndim - src.ndim
+                for ax in range(src.ndim):
+                    cs = np.concatenate([[0], np.cumsum(chunks[ax])]).tolist()
+                    p, q = aloc[ax]
+                    loc = int(bi["chunk-location"][ax])
+                    nch = int(bi["num-chunks"][ax])
+                    if (ax + off) in dropped:
+                        good = (p, q) == (0, src.shape[ax]) and loc == 0 and nch == 1
+                        if not good:
+                            ok["array-location-is-an-advertised-chunk-or-a-concatenated-axis"] = False
+                    else:
+                        if not (0 <= loc < len(chunks[ax]) and (p, q) == (cs[loc], cs[loc + 1])):
+                            ok["array-location-is-an-advertised-chunk-or-a-concatenated-axis"] = False
+                        if nch != len(chunks[ax]):
+                            ok["chunk-location-and-num-chunks"] = False
+                if tuple(bi["shape"]) != src.shape:
+                    ok["chunk-location-and-num-chunks"] = False
+            o = info[None]
+            loc = tuple(o["chunk-location"])
+            want_shape = tuple(out_chunks[ax][k] for ax, k in enumerate(loc))
+            cs = [np.concatenate([[0], np.cumsum(c)]).tolist() for c in out_chunks]
+            want_loc = [(cs[ax][k], cs[ax][k + 1]) for ax, k in enumerate(loc)]
+            if tuple(o["chunk-shape"]) != want_shape or [tuple(map(int, t)) for t in o["array-location"]] != want_loc \
+                    or tuple(o["num-chunks"]) != tuple(len(c) for c in out_chunks) or tuple(o["shape"]) != out_shape:
+                ok["output-entry-describes-the-advertised-output-layout"] = False
+        return ok
+
+    def domain(tier, rng):
+        xlay = [((4,), (6,)), ((2, 2), (3, 3)), ((1, 3), (2, 4)), ((4,), (1, 2, 3)), ((2, 1, 1), (6,))]
+        seen = set()
+        for drop, new in ((None, None), (0, None), (1, None), (None, 0)):
+            for xch in xlay:
+                for kind in ("vec", "col", "row", "full"):
+                    # map_blocks does not align its inputs: the lower-rank operand carries x's chunks along the shared axes
+                    ych = {"vec": (xch[1],), "col": (xch[0], (1,)), "row": ((1,), xch[1]), "full": xch}[kind]
+                    if drop is not None and kind in ("col", "row"):
+                        continue
+                    key = (kind, drop, new, xch, ych)
+                    if key not in seen:
+                        seen.add(key)
+                        yield {"case": (kind, drop, new), "xch": xch, "ych": ych}
+        for drop in (None, 0, 1, 2):
+            for ych in (((4,), (6,)), ((2, 2), (3, 3)), ((1, 3), (6,))):
+                yield {"case": ("3d", drop, None), "xch": ((1, 1),) + ych, "ych": ych}
+
+
 @contract("dask_array/_collection.py::Array.compute_chunk_sizes", spec="catalogue", props=["C28"])
 class compute_chunk_sizes_catalogue:
     """compute_chunk_sizes sets each chunk to the true size of that block; later operations compute NumPy's result"""
@@ -1125,6 +1235,81 @@ class unify_chunks_pairs:
                             yield {"la": a, "lb": b, "policy": pol, "limit": lim, "mode": "bcast"}
 
 
+@contract("dask_array/_expr.py::unify_chunks_expr", spec="triples", props=["C17"])
+class unify_chunks_triples:
+    """three operands (two panels over ij and a vector over j): one common layout per index, 'refine' only splits, no
+    operand's block grows beyond max(array.unify-chunks-limit, its own largest block), values unchanged"""
+    bounded_only = True
+    params = {"lay": "const", "policy": "const", "limit": "const"}
+    scope = ("where(mask, panel, vector) over a 16x16 grid: row layouts of mask/panel and column layouts of mask/panel/vector "
+             "from 4 layouts each (nested and interleaved), policies auto/refine/coarse, limits 64 B .. 4 KiB")
+
+    def real():
+        from dask_array._expr import unify_chunks_expr
+        return unify_chunks_expr
+
+    def call(fn, lay, policy, limit):
+        import warnings
+        import numpy as np
+        import dask
+        import dask_array as da
+        ra, rb, ca, cb, cv = lay
+        m = (np.arange(256).reshape(16, 16) % 3 == 0)
+        pnl = np.arange(256.0).reshape(16, 16)
+        vec = np.arange(16.0) * 100
+        a = da.from_array(m, chunks=(ra, ca))
+        b = da.from_array(pnl, chunks=(rb, cb))
+        v = da.from_array(vec, chunks=(cv,))
+        with dask.config.set({"array.unify-chunks-policy": policy, "array.unify-chunks-limit": limit}):
+            with warnings.catch_warnings():
+                warnings.simplefilter("ignore")
+                chunkss, arrays, changed = fn(a.expr, ("i", "j"), b.expr, ("i", "j"), v.expr, ("j",), warn=False)
+                # the layouts are checked on every case; the values on a fixed quarter of them (computing dominates the cost)
+                import zlib
+                got = np.asarray(da.where(a, b, v).compute()) if zlib.crc32(repr((lay, policy, limit)).encode()) % 4 == 0 else None
+        ops = [(x.chunks, o.chunks, o.shape, o.dtype.itemsize, ind) for x, o, ind in zip(arrays, (a, b, v), ("ij", "ij", "j"))]
+        return ops, dict(chunkss), got, np.where(m, pnl, vec)
+
+    def requires(lay, policy, limit):
+        return True
+
+    def ensures(result, lay, policy, limit):
+        import math
+        ops, chunkss, got, want = result
+
+        def bounds(t):
+            out, acc = set(), 0
+            for c in t:
+                acc += c
+                out.add(acc)
+            return out
+        common = only_splits = no_growth = True
+        for new, old, shape, itemsize, ind in ops:
+            for ax, (n, o) in enumerate(zip(new, old)):
+                if shape[ax] > 1 and tuple(n) != tuple(chunkss[ind[ax]]):
+                    common = False
+                if not bounds(o) <= bounds(n):
+                    only_splits = False
+            if itemsize * math.prod(max(c) for c in new) > max(limit, itemsize * math.prod(max(c) for c in old)):
+                no_growth = False
+        r = {"one-common-layout-per-index": common, "no-block-grows-beyond-limit": no_growth,
+             "values": True if got is None else _same(got, want)}
+        if policy == "refine":
+            r["refine-only-splits"] = only_splits
+        return r
+
+    def domain(tier, rng):
+        lays = [(2,) * 8, (8, 8), (16,), (4, 4, 8)] + ([(3, 5, 8), (1,) * 16] if tier != "quick" else [])
+        for pol in ("auto", "refine", "coarse"):
+            for lim in (64, 256, 1024, 4096):
+                for ra in lays:
+                    for rb in lays:
+                        for ca in lays:
+                            for cb in (lays if tier != "quick" else lays[:2]):
+                                for cv in lays:
+                                    yield {"lay": (ra, rb, ca, cb, cv), "policy": pol, "limit": lim}
+
+
 # ---------------------------------------------------------------------------
 # C04 / C11: in-place operations keep keys, names and other collections consistent
 # ---------------------------------------------------------------------------
@@ -1136,6 +1321,8 @@ class inplace_sequences:
     bounded_only = True
     params = {"chunks": "const", "op": "const", "touch": "const"}
     scope = "1-D length 12 / 2-D 3x4 arrays, 4 layouts; ops: setitem (int, slice, reversed slice, mask, masked value), out=, compute_chunk_sizes; with and without reading keys/to_delayed before the operation"
+    clause_props = {"values-equal-numpy-assignment": ["C11"], "earlier-derived-collections-unchanged": ["C11"],
+                    "source-unmodified": ["C11"], "to_delayed-agrees": ["C11", "C04"]}
 
     def real():
         return lambda x: x
@@ -1148,8 +1335,14 @@ class inplace_sequences:
         a = np.arange(12.0) * 3
         src = a.copy()
         x = da.from_array(a, chunks=(chunks,))
-        derived = {"plus": x + 1, "slice": x[2:9], "rev": x[::-1]}
-        derived_want = {"plus": src + 1, "slice": src[2:9], "rev": src[::-1]}
+        # collections derived before the operation; the last three are derivations that change nothing (same-layout
+        # rechunk, copy, ravel of a 1-D array) but hand back a collection of their own.  Not included: x[:], x[...],
+        # astype/reshape/broadcast_to to the same dtype/shape and asarray(x), which return x itself on the pinned tree
+        # (pinned by tests/test_slicing.py "assert a is a[:]") and are therefore the same collection, not another one.
+        derived = {"plus": x + 1, "slice": x[2:9], "rev": x[::-1], "rechunk-same": x.rechunk(x.chunks),
+                   "rechunk-same-int": x.rechunk({0: chunks}), "copy": x.copy(), "ravel": x.ravel()}
+        derived_want = {"plus": src + 1, "slice": src[2:9], "rev": src[::-1], "rechunk-same": src.copy(),
+                        "rechunk-same-int": src.copy(), "copy": src.copy(), "ravel": src.copy()}
         if touch:
             x.__dask_keys__()
             x.to_delayed()
@@ -1255,7 +1448,7 @@ class constructors_touch_no_data:
     user block function on a non-empty block; data is read only when the graph is executed"""
     bounded_only = True
     params = {"op": "const", "dtype": "const", "vdtype": "const"}
-    scope = "18 constructor kinds over recording sources (int and float dtypes for targets and values); metadata accessors afterwards"
+    scope = "26 constructor kinds (incl. asarray/asanyarray/array and implicit coercion of a raw source) over recording sources (int and float dtypes for targets and values); metadata accessors afterwards"
 
     def real():
         return lambda: None
@@ -1314,6 +1507,24 @@ class constructors_touch_no_data:
             r = da.cumsum(x, axis=0)
         elif op == "swv":
             r = da.sliding_window_view(x, 3).sum(-1)
+        # the raw source entering through the other import paths (conversion functions and implicit coercion)
+        elif op == "asarray":
+            r = da.asarray(s2) + x
+        elif op == "asarray-dtype":
+            r = da.asarray(s2, dtype="f8") + x
+        elif op == "asanyarray":
+            r = da.asanyarray(s2) + x
+        elif op == "array":
+            r = da.array(s2) + x
+        elif op == "coerce-elemwise":
+            r = x + s2
+        elif op == "coerce-where":
+            r = da.where(x > 3, s2, 0)
+        elif op == "coerce-concatenate":
+            r = da.concatenate([x, s2])
+        elif op == "coerce-setitem":
+            x[:] = s2
+            r = x
         else:
             raise ValueError(op)
         r.shape, r.chunks, r.dtype, r.name, r.numblocks
@@ -1324,7 +1535,7 @@ class constructors_touch_no_data:
         r.optimize().chunks
         before = (list(s1.nonempty_requests()), list(s2.nonempty_requests()), list(calls))
         r.compute()
-        after_reads = len(s1.requests) + len(s2.requests)
+        after_reads = len(s1.requests) + len(s2.requests) + len(s1.array_calls) + len(s2.array_calls)
         return before, after_reads
 
     def requires(op, dtype, vdtype):
@@ -1332,6 +1543,12 @@ class constructors_touch_no_data:
 
     def ensures(result, op, dtype, vdtype):
         (r1, r2, calls), after = result
+        import numpy as np
+        if op == "coerce-setitem" and np.dtype(dtype).kind in "iu":
+            # F10: assigning a raw (non-dask, non-NumPy) source into an integer array scans it for NaN/inf at assignment time
+            return {"raw-source-assigned-into-integer-array-not-read": r1 == [] and r2 == [],
+                    "no-user-function-call-on-nonempty-block-before-execution": calls == [],
+                    "data-is-read-at-execution": after > 0}
         return {"no-source-read-before-execution": r1 == [] and r2 == [],
                 "no-user-function-call-on-nonempty-block-before-execution": calls == [],
                 "data-is-read-at-execution": after > 0}
@@ -1339,7 +1556,8 @@ class constructors_touch_no_data:
     def domain(tier, rng):
         ops = ["setitem-lazy", "setitem-lazy-full", "setitem-scalar", "setitem-mask", "where", "map_blocks", "map_blocks-info",
                "map_overlap", "concat-stack", "reshape-T", "reduce", "astype-clip", "rechunk-slice", "take", "mask-select",
-               "blockwise-apply", "cumsum", "swv"]
+               "blockwise-apply", "cumsum", "swv", "asarray", "asarray-dtype", "asanyarray", "array", "coerce-elemwise",
+               "coerce-where", "coerce-concatenate", "coerce-setitem"]
         for op in ops:
             for dt in ("i8", "f8"):
                 for vdt in ("i8", "f8"):
